@@ -48,7 +48,10 @@ def oracle_time(terms, y, n, sec):
 
 
 def run(ctx):
+    ctx.exhaustive = False
+    ctx.exhaustive_note = 'complete over every day of a scenario year (9 placements) and all critical instants; not over all real dates'
     from rules import shared
+    ctx.include('effect_inventory', shared.effect_inventory)   # no new process-wide mutable state (MIR statics inventory)
     ctx.include('month_records', shared.month_records)   # leap table, solstice anchor, month memo, memo cells (shared, cached per source hash)
     I = ctx.interp(fuel=30000000)
     t = T(I)
